@@ -74,6 +74,11 @@ class ListTensor(Operator):
             indices = [sub(e, 1).indices() for e in expressions]
             try:
                 (j,) = set(i[:-1] for i in indices)
+                # the common prefix must not repeat an index or use a free index of the tensor:
+                # v[(*j, slice)] would sum over it
+                jfree = [x.count() for x in j if isinstance(x, Index)]
+                if len(set(jfree)) != len(jfree) or set(jfree) & set(sub(e0, 0).ufl_free_indices):
+                    raise ValueError
                 if all(i[-1] == k for k, i in enumerate(indices)):
                     return sub(e0, 0) if j == () else sub(e0, 0)[(*j, slice(None))]
             except ValueError:
